@@ -960,7 +960,14 @@ func concreteReplay(cfg RunConfig, r *OblResult, model string) (res ReplayResult
 		b.WriteString(strings.Join(resNames, ", ") + " = ")
 	}
 	b.WriteString(call + "\n\t\t\treturn nil }()\n")
-	b.WriteString("\t\tif panicked != nil { fmt.Printf(\"FVC-REPLAY-FAIL violated=run-time-panic(%v) input: %s\\n\", panicked, desc); t.FailNow() }\n")
+	if g.con.Panics {
+		// `panics`: an explicit panic is part of the function's documented behaviour (not an obligation): such an input is
+		// outside what the postconditions speak about
+		b.WriteString("\t\tif panicked != nil { if pt := fmt.Sprintf(\"%T\", panicked); !(len(pt) >= 8 && pt[:8] == \"runtime.\") { continue } }\n")
+		b.WriteString("\t\tif panicked != nil { fmt.Printf(\"FVC-REPLAY-FAIL violated=run-time-panic(%v) input: %s\\n\", panicked, desc); t.FailNow() }\n")
+	} else {
+		b.WriteString("\t\tif panicked != nil { fmt.Printf(\"FVC-REPLAY-FAIL violated=run-time-panic(%v) input: %s\\n\", panicked, desc); t.FailNow() }\n")
+	}
 	for _, en := range enss {
 		fmt.Fprintf(&b, "\t\tif bad := func() (bad bool) { defer func() { if recover() != nil { bad = false } }(); return !(%s) }(); bad { fmt.Printf(\"FVC-REPLAY-FAIL violated=post:%s input: %%s result: %s\\n\", desc%s); t.FailNow() }\n",
 			en.code, en.label, strings.Repeat("%#v ", len(resNames)), func() string {
